@@ -223,6 +223,12 @@ def check_frame(c):
         eq(devs, f"frame.dec.obs.{tag}", obs_frame(u), want_obs)
         eq(devs, f"frame.dec.repack.{tag}", bytes(u.pack(truncated=trunc, frame_type=ft)), want)
         eq(devs, f"frame.dec.len.{tag}", u.len(), len(want))
+    # the frame followed by further octets in the receive buffer (the next frame, fill): the length field / managed length delimits the frame
+    for tag, tail in (("next_frame", bytes(want)), ("fill", b"\x55" * 7), ("one_octet", b"\x00")):
+        u = F.TransferFrame.unpack(bytes(want) + tail, ft, props)
+        eq(devs, f"frame.dec.obs.longer_buffer.{tag}", obs_frame(u), want_obs)
+        eq(devs, f"frame.dec.len.longer_buffer.{tag}", u.len(), len(want))
+        eq(devs, f"frame.dec.repack.longer_buffer.{tag}", bytes(u.pack(truncated=trunc, frame_type=ft)), want)
     # the data field on its own, with the frame type left out (documented as optional: it is only used for the rule check)
     if not trunc:
         tf = F.TransferFrameDataField(F.TfdzConstructionRules(c["rule"]), F.UslpProtocolIdentifier(c["upid"]), bytes.fromhex(c["tfdz"]), c["pointer"])
